@@ -26,7 +26,8 @@ def run(tier="quick", seed=0, use_cache=True):
         "decision table over (i > 0, i < n-1) and must be lo' = keys[i-1] "
         "or the inherited lo, hi' = keys[i] or the inherited hi. CHECK-TABLES: the two dispatch tables of check.py are evaluated from the module-level loops that build them (partial evaluation with classes as symbols) and compared, for the 22 families and both implementations, with kind/mapping-ness per container type and leaf type per tree type. CHECK-TRANSPARENT: no function of check.py applies a de-duplicating or re-ordering operation (dict, set, sorted, .sort ...) to what it takes from a state, so duplicates and misorder reach check_sorted. That every "
         "valid tree is accepted, and that each concrete corruption is "
-        "caught by the combination of the two tools, is not decided.")
+        "caught by the combination of the two tools, is not decided."
+        ' CHECK-TABLES: the dispatch tables of check.py are evaluated from their module-level loops for every family and both implementations. CHECK-TRANSPARENT: no de-duplicating / re-ordering operation on state data. An assertion switched off by a guard on its own value counts as weakened.')
     res.assumptions = ["crack_btree / crack_bucket split the state by position as documented (only the absence of de-duplicating / re-ordering operations is checked)"]
     out = engine.map_tus("sa.props.C18", "tu_check", use_cache=use_cache)
     pa = ck.py_atoms()
